@@ -19,7 +19,7 @@ RULE = ('exhaustive over the unit interval up to piecewise constancy: random_wal
         'receive the complete value group; session layer: --limit N gives N words of the non-Markov language in both modes, random_walk output identical across runs and hash seeds; non-trivial = walk with >= 2 draws')
 ASSUMPTIONS = ['the selection functions are piecewise constant between the reference breakpoints (they only compare the draw with cumulative sums); points closer than 1e-9 to a breakpoint are not distinguished, so > vs >= is not observable',
                'random.random / random.choice / random.seed are replaced in the pcfg_grammar and honeyword_session module namespaces',
-               'rulesets whose probabilities sum to 1 up to floating-point rounding (e.g. 7, 13 or 19 equal shares)']
+               'terminal lists sum to 1 up to floating-point rounding (e.g. 7, 13 or 19 equal shares); base structures may sum to less than 1 (edited rulesets): they are drawn in proportion']
 DELTA = Fraction(1, 10 ** 9)
 TOP = 1.0 - 2.0 ** -53
 
@@ -73,6 +73,8 @@ def rulesets(tier):
     # the same variable type at several positions of one structure (the walk must keep the positions apart)
     out.append(('repeated type', t, [(.6, ['D1', 'O1', 'D1']), (.3, ['D1', 'D1']), (.1, ['A1', 'C1', 'A1', 'C1'])]))
     out.append(('length-changing upper case', t, [(.7, ['A2', 'C2']), (.3, ['D1', 'A2', 'C2', 'O1'])]))
+    # an edited ruleset (edit_rules.py removes structures without renormalising): structures are drawn in proportion to what is left
+    out.append(('edited ruleset, structures sum to 0.5', t, [(.3, ['D1', 'O1']), (.2, ['A1', 'C1', 'D1'])]))
     out.append(('with markov', t, [(.4, ['D1']), (.4, ['M']), (.2, ['A1', 'C1'])]))
     for n in (7, 13, 19) if tier == 'quick' else (3, 6, 7, 10, 13, 14, 19, 23):
         tt = {'D1': [(1.0 / n, ['%d' % i]) for i in range(n)]}
